@@ -321,6 +321,9 @@ macro_rules! entry1d_case {
                     *q2.iter_mut().nth(k).unwrap() = bad;
                     let r = interp.interp_array(&q2);
                     ck(checks, format!("C05:{tag}:batch-error[pos={k}]"), matches!(r, Err(InterpolateError::OutOfBounds(_))), String::new());
+                    // entry points agree on rejection as well: the batch fails iff one of the single calls fails
+                    let any_single_err = q2.iter().any(|e| interp.interp(*e).is_err());
+                    ck(checks, format!("C09:{tag}:error-agreement[pos={k}]"), r.is_err() == any_single_err, format!("batch err={} single err={}", r.is_err(), any_single_err));
                 }
                 let mut q3 = q.clone();
                 if let Some(e) = q3.iter_mut().next() { *e = var("qnan", f64::NAN); let r = interp.interp_array(&q3); ck(checks, format!("C05:{tag}:batch-error[NaN]"), r.is_err(), String::new()); }
